@@ -50,6 +50,8 @@ def cell(c):
         return "(CLit %s)" % cstr(c["l"])
     if c.get("t") is not None:
         return "(CTime %s)" % cz(c["t"])
+    if c.get("s") is not None:
+        return "(CStr %s)" % cstr(c["s"])
     return "CNull"
 
 
